@@ -9,7 +9,8 @@
     recorded samples (all samples for one-point conditions) of the statement's formula; [C04_formula_*] (41): that
     formula is the reference condition of Spec/Reference.v.  [C04_order_independent], [C04_lmi_order_independent]:
     recording the samples in another order gives the same conjunction / a congruent LMI.
-    Known finding F-C04b: [C04_skew_diagonal_refuted] / [C04_skew_offdiagonal_partial]. *)
+    Known finding F-C04b: [C04_skew_diagonal_refuted] / [C04_skew_offdiagonal_partial].  (F-C04c, the tuple
+    equality of BlockSmoothConvexFunction, was repaired in /repo b61687d: [C04_block_same_xg_regression].) *)
 From Coq Require Import List QArith Reals Qreals Lra Bool Arith String Permutation.
 From PV Require Import Base.IPS Model.Dict Model.Terms Model.ClassGen Spec.Sem Spec.Reference.
 From PV Require Import Proofs.DictLemmas Proofs.SemLemmas Proofs.ClassGenLemmas Proofs.FormulaEq Proofs.C04Lemmas.
@@ -177,12 +178,24 @@ Theorem C04_skew_offdiagonal_partial :
                    ref_skew (evalP rho (s_x si)) (evalP rho (s_g si)) (evalP rho (s_x sj)) (evalP rho (s_g sj)) = 0).
 Proof. exact @skew_offdiagonal_partial. Qed.
 
-(** * known finding F-C04c (BlockSmoothConvexFunction skips by tuple equality) *)
-Theorem C04_block_same_xg_refuted :
-  exists st s1 s2, f_points st = [s1; s2] /\ s_uid s1 <> s_uid s2 /\ s_f s1 <> s_f s2 /\
-                   f_nblocks st = 1%nat /\
-                   g_cons (run_plan plan_BlockSmoothConvexFunction st) = [].
-Proof. exact block_same_xg_refuted. Qed.
+(** * LinearOperator: the adjoint equalities range over two DIFFERENT lists (samples of the operator x samples of
+    its transpose) *)
+Theorem C04_linear_adjoint_complete :
+  forall (E : ips) (rho : nat -> E) (phi : nat -> R) st,
+    wf_state st ->
+    (all_hold rho phi (g_cons (run_plan plan_LinearOperator st)) <->
+     forall si sj, In si (f_points st) -> In sj (f_tpoints st) -> s_uid si <> s_uid sj ->
+                   ref_lin_adjoint (evalP rho (s_x si)) (evalP rho (s_g si))
+                                   (evalP rho (s_x sj)) (evalP rho (s_g sj)) = 0).
+Proof. exact @linear_adjoint_complete. Qed.
+
+(** regression for the repaired F-C04c (/repo b61687d): two distinct samples (x, g, f1), (x, g, f2) of a
+    BlockSmoothConvexFunction holding the same Point objects x and g now get both their conditions *)
+Example C04_block_same_xg_regression :
+  map c_name (g_cons (run_plan plan_BlockSmoothConvexFunction block_witness))
+  = [Some "IC_Function_0_smoothness_convexity_block_0(Point_0, Point_1)"%string;
+     Some "IC_Function_0_smoothness_convexity_block_0(Point_1, Point_0)"%string].
+Proof. exact block_same_xg_regression. Qed.
 
 (** * (d) every formula found in the sources denotes its literature reference condition *)
 Section Formulas.
@@ -271,7 +284,7 @@ Section Formulas.
   Theorem C04_formula_csm_strong : cdef par f_CocoerciveStronglyMonotoneOperator_strong_monotonicity_constraint_i_j /\ lhs_minus_rhs par up ux f_CocoerciveStronglyMonotoneOperator_strong_monotonicity_constraint_i_j = (ref_strong_monotone pmu xi gi xj gj, Ineq).
   Proof. exact (feq_csm_strong par up ux). Qed.
 
-  Theorem C04_formula_lin_adjoint : cdef par cross_LinearOperator /\ lhs_minus_rhs par up ux cross_LinearOperator = (ref_lin_adjoint xi gi xj gj, Equ).
+  Theorem C04_formula_lin_adjoint : cdef par f_LinearOperator_adjoint_constraint_i_j /\ lhs_minus_rhs par up ux f_LinearOperator_adjoint_constraint_i_j = (ref_lin_adjoint xi gi xj gj, Equ).
   Proof. exact (feq_lin_adjoint par up ux). Qed.
 
   Theorem C04_formula_lin_lmi1 : xdef par lmi_LinearOperator_1 /\ denoteX par up ux lmi_LinearOperator_1 = ref_lin_lmi pL xi gi xj gj.
@@ -346,7 +359,7 @@ Section Formulas.
     (cdef par f_CocoerciveOperator_cocoercivity_constraint_i_j /\ lhs_minus_rhs par up ux f_CocoerciveOperator_cocoercivity_constraint_i_j = (ref_cocoercive pbeta xi gi xj gj, Ineq)) /\
     (cdef par f_CocoerciveStronglyMonotoneOperator_cocoercivity_constraint_i_j /\ lhs_minus_rhs par up ux f_CocoerciveStronglyMonotoneOperator_cocoercivity_constraint_i_j = (ref_cocoercive pbeta xi gi xj gj, Ineq)) /\
     (cdef par f_CocoerciveStronglyMonotoneOperator_strong_monotonicity_constraint_i_j /\ lhs_minus_rhs par up ux f_CocoerciveStronglyMonotoneOperator_strong_monotonicity_constraint_i_j = (ref_strong_monotone pmu xi gi xj gj, Ineq)) /\
-    (cdef par cross_LinearOperator /\ lhs_minus_rhs par up ux cross_LinearOperator = (ref_lin_adjoint xi gi xj gj, Equ)) /\
+    (cdef par f_LinearOperator_adjoint_constraint_i_j /\ lhs_minus_rhs par up ux f_LinearOperator_adjoint_constraint_i_j = (ref_lin_adjoint xi gi xj gj, Equ)) /\
     (xdef par lmi_LinearOperator_1 /\ denoteX par up ux lmi_LinearOperator_1 = ref_lin_lmi pL xi gi xj gj) /\
     (xdef par lmi_LinearOperator_2 /\ denoteX par up ux lmi_LinearOperator_2 = ref_lin_lmi pL xi gi xj gj) /\
     (cdef par f_LipschitzOperator_lipschitz_continuity_constraint_i_j /\ lhs_minus_rhs par up ux f_LipschitzOperator_lipschitz_continuity_constraint_i_j = (ref_lipschitz pL xi gi xj gj, Ineq)) /\
@@ -431,5 +444,5 @@ Print Assumptions C04_run_plan_lmis_spec_simple.
 Print Assumptions C04_shipped_plans_auto_head.
 Print Assumptions C04_skew_diagonal_refuted.
 Print Assumptions C04_skew_offdiagonal_partial.
-Print Assumptions C04_block_same_xg_refuted.
+Print Assumptions C04_linear_adjoint_complete.
 Print Assumptions C04_formulas_all.
